@@ -11,6 +11,8 @@
 From Coq Require Import List NArith ZArith.
 From Coq.Strings Require Import Byte.
 From SP Require Import Bytes Errors Armor Streams StreamProofs FaultProofs.
+From Coq Require String.
+From SP Require BaseX GoLang GoLang2 GoAst GoAstStreams GoAstProofs5b.
 Import ListNotations.
 
 Theorem C14_punctuated_reader_reports_fault (s : source) (sizes : list nat) (done : list bytes) (cur : bytes) (e : err) :
@@ -40,6 +42,43 @@ Theorem C14_chunk_reader_reaches_the_error (l : list (bytes * option err)) (size
   snd (cr_drain sizes (mkCr [] None l) []) <> None.
 Proof. exact (cr_drain_complete l sizes). Qed.
 
+(* ---- source ties: the sticky error of the streaming base-X ENCODER (/repo/encoding/basex/stream.go),
+        lemmas of proofs/GoAstProofs5b.v ---- *)
+(* WRITE side, one layer proved on the translated source: the terms f_basex_encoder_Write / _Close are generated on
+   every run from the Go syntax trees of /repo/encoding/basex/stream.go (gen/GoAstStreams.v) and run by the evaluator
+   of model/GoLang2.v ([run2] = run_func2 with the fuel F as a parameter).  The *encoder object is [g_obj en o],
+   o : gobj = (e.err, e.buf, e.nbuf, e.out, e.w); the underlying io.Writer is a log of the Write calls made plus a
+   schedule of the errors it will return.  An error of the underlying writer is stored in e.err and returned
+   (C10_source_encoder_Write / _Close: the error returned and stored is that of the FIRST failing call, and no
+   call is made after it); the two theorems here say it then STICKS: every later Write / Close returns that very
+   error, consumes nothing and writes nothing — the whole object, writer log included, is unchanged.
+   Hypotheses of both: Hibl: 0 < base256BlockLen; HK: 1 <= K; gobj_ok en K o (the invariants NewEncoder establishes
+   and Write/Close keep: len(e.buf) = base256BlockLen, len(e.out) = K * baseXBlockLen); e.err = Some x; and the
+   evaluator's fuel bound (a bound on the evaluator, not on the Go code). *)
+Section C14_source.
+Import BaseX GoLang GoLang2 GoAst GoAstStreams GoAstProofs5b String.StringSyntax.
+Variable en : encoding.
+Variable K : nat.
+Hypothesis Hibl : (0 < ibl_nat en)%nat.
+Hypothesis HK : (1 <= K)%nat.
+
+(* with e.err <> nil, Write(p) returns (0, e.err) and changes nothing *)
+Theorem C14_source_encoder_Write_sticky (o : gobj) (p : bytes) (x : String.string) (F : nat) :
+  gobj_ok en K o -> go_err o = Some x -> (30 + ibl_nat en + List.length p / (K * ibl_nat en) <= F)%nat ->
+  let r := run2 (ext_bx en) F f_basex_encoder_Write [g_obj en o; VBytes p] in
+  fst r = ORet [VInt 0; VErr x []] /\ lookup "e" (snd r) = Some (g_obj en o).
+Proof. exact (go_encoder_Write_sticky en K Hibl HK o p x F). Qed.
+
+(* Close after an error: returns it, nothing is written *)
+Theorem C14_source_encoder_Close_sticky (o : gobj) (x : String.string) (F : nat) :
+  gobj_ok en K o -> go_err o = Some x -> (12 <= F)%nat ->
+  let r := run2 (ext_bx en) F f_basex_encoder_Close [g_obj en o] in
+  fst r = ORet [VErr x []] /\ lookup "e" (snd r) = Some (g_obj en o).
+Proof. exact (go_encoder_Close_sticky en K Hibl HK o x F). Qed.
+End C14_source.
+
+Print Assumptions C14_source_encoder_Write_sticky.
+Print Assumptions C14_source_encoder_Close_sticky.
 Print Assumptions C14_punctuated_reader_reports_fault.
 Print Assumptions C14_chunk_reader_reports_fault.
 Print Assumptions C14_frame_sentence_reports_fault.
